@@ -31,6 +31,14 @@ func c05Code(c *Ctx, ev *c05Eval) {
 	for _, f := range pgpLengthThresholds(c.P) {
 		c.Check(f.OK, "R05n", f.Key, f.Pos, "", f.Detail)
 	}
+	c.Rule("R05s", "the APK v2 hasher never emits an empty chunk: the partial buffer is emitted only behind a test that it holds bytes", 1)
+	for _, f := range apkNoEmptyChunk(c.P) {
+		c.Check(f.OK, "R05s", f.Key, f.Pos, "", f.Detail, f.Path...)
+	}
+	c.Rule("R05t", "the Authenticode page size is 4096, or 8192 for Itanium and Alpha, chosen by the machine type alone", 2)
+	for _, f := range pePageSizeFromMachine(c.P) {
+		c.Check(f.OK, "R05t", f.Key, f.Pos, "", f.Detail)
+	}
 	c.Rule("R05p", "an XML signature method is named in the xmldsig# namespace only for RSA keys, and rsa-sha1 never in xmldsig-more# (RFC 3275, RFC 4051)", 2)
 	for _, f := range xmldsigNamespaces(c.P, ev) {
 		c.Check(f.OK, "R05p", f.Key, f.Pos, "", f.Detail, f.Path...)
